@@ -121,22 +121,27 @@ def _invert_topology_at_store(
         store.path_for()[outside:-1], update, store.topology)
 
 
-def _without_values(schema: dict) -> dict:
-    """A store schema without its ``_value`` keys.
+#: The settings of a store schema that a sub-schema pass may overwrite.
+_SETTINGS_APPLIED_AGAIN = (
+    '_default', '_updater', '_divider', '_emit', '_properties',
+    '_serializer')
 
-    (The values it sets have been set by its first application: they
-    need not, and for values that do not compare equal to themselves
-    cannot, be checked against themselves a second time.)
+
+def _settings_again(schema: dict) -> dict:
+    """The part of a store schema that is applied a second time.
+
+    (Not its values and units: they have been set by its first
+    application and need not - for values that do not compare equal to
+    themselves cannot - be checked against themselves.)
     """
     settings = {}
     for key, value in schema.items():
-        if key == '_value':
-            continue
-        if isinstance(value, dict) and (
-                key in ('*', '_subschema')
-                or not str(key).startswith('_')):
-            settings[key] = _without_values(value)
-        else:
+        if key in ('*', '_subschema') or not str(key).startswith('_'):
+            if isinstance(value, dict):
+                inner = _settings_again(value)
+                if inner:
+                    settings[key] = inner
+        elif key in _SETTINGS_APPLIED_AGAIN:
             settings[key] = value
     return settings
 
@@ -497,7 +502,9 @@ class Engine:
             # (re-applying the sub-schemas to the existing children must
             # not undo the settings of store_schema: it has the last
             # word)
-            self.state._apply_config(_without_values(store_schema))
+            settings = _settings_again(store_schema)
+            if settings:
+                self.state._apply_config(settings)
             self.state.apply_defaults()
             self.state.build_topology_views()
 
